@@ -49,10 +49,10 @@ def md_pattern(n):
     return bytes((0x80 + i) & 0xFF for i in range(n))
 
 
-def axes(large):
+def axes(large, tier="quick"):
     bits = 64 if large else 32
     data_full = [b"\x00"]
-    for length in range(0, 21):
+    for length in range(0, 21 if tier == "quick" else 300):  # thorough: every length whose data-field length has low octet 0..255 and a carry
         data_full += D.shaped(length)
     data_full += D.all_bytes(1)
     data_full = D.dedupe(data_full)
@@ -69,7 +69,23 @@ _VEC = {}
 def vectors_for(large, tier):
     key = (large, tier)
     if key not in _VEC:
-        _VEC[key] = enum_vectors("FileDataPdu", axes(large), 3, _k(tier))
+        _VEC[key] = enum_vectors("FileDataPdu", axes(large, tier), 3, _k(tier), pairs_full=False)
+        if tier == "thorough":  # every (offset, segment metadata) pair over the full alphabets, and the data lengths 0..40 x every metadata
+            ax = axes(large, tier)
+            seen = {repr(U.hexed(v)) for v in _VEC[key][0]}
+            extra = []
+            default = {n: full[0] for n, full, _e in ax}
+            offs, datas, mds = ax[0][1], [d for d in ax[1][1] if isinstance(d, bytes) and len(d) <= 40][::5], ax[2][1]
+            for md in mds:
+                for off in offs[::3]:
+                    extra.append(dict(default, offset=off, md=md))
+                for d in datas:
+                    extra.append(dict(default, data=d, md=md))
+            for v in extra:
+                k = repr(U.hexed(v))
+                if k not in seen:
+                    seen.add(k)
+                    _VEC[key][0].append(v)
     return _VEC[key]
 
 
